@@ -22,11 +22,8 @@ func init() {
 				if cal == nil {
 					return false
 				}
-				if cal.Signature.Recv() != nil {
-					r := cal.Signature.Recv().Type().String()
-					if strings.HasSuffix(r, "nfa.PikeVM") || strings.HasSuffix(r, "nfa.BoundedBacktracker") {
-						return true
-					}
+				if nfaEngineMethod(cal) {
+					return true
 				}
 				return strings.Contains(cal.Name(), "NFA")
 			}
